@@ -162,6 +162,10 @@ impl ValveProtocol {
                 let new_data = self.socket.receive(Some(buffer_size))?;
                 buffer = Buffer::<LittleEndian>::new(&new_data);
                 let chunk_packet = SplitPacket::new(engine, protocol, &mut buffer)?;
+                // All the packets of a response share the split header and the response id
+                if chunk_packet.header != chunk_packets[0].header || chunk_packet.id != chunk_packets[0].id {
+                    return Err(PacketBad.context("Split packet of another response"));
+                }
                 chunk_packets.push(chunk_packet);
             }
 
